@@ -1,0 +1,25 @@
+//go:build verif
+
+package engine
+
+import (
+	"reflect"
+	"text/template"
+	"unsafe"
+)
+
+// VerifBoundFuncs returns, for every function initFunMap binds on a fresh parent template,
+// the code pointer of the bound function (read from the template's function table), so that a
+// caller can tell which entries are sprig's, which are funcMap()'s and which were re-bound.
+func (e Engine) VerifBoundFuncs() map[string]uintptr {
+	t := template.New("gotpl")
+	e.initFunMap(t)
+	c := reflect.ValueOf(t).Elem().FieldByName("common").Elem()
+	f := c.FieldByName("parseFuncs")
+	f = reflect.NewAt(f.Type(), unsafe.Pointer(f.UnsafeAddr())).Elem()
+	out := make(map[string]uintptr, f.Len())
+	for _, k := range f.MapKeys() {
+		out[k.String()] = f.MapIndex(k).Elem().Pointer()
+	}
+	return out
+}
